@@ -1,7 +1,89 @@
-(* C05 - key routing agrees with state ownership for every configuration. Statements only. *)
-From RV Require Import Model.KeyCodec.
+(* C05 - key routing agrees with state ownership for every configuration.
+   Statements only; proofs are in Proofs/C05_KeySpace.v. Model: Model/{Murmur,KeySpace,KeyCodec}.v.
+   Guards: key-group count 1..65535 (NewKeySpace panics otherwise); operator count 1..65536 for the
+   lookup table ([]uint16): beyond that the table entry wraps, see lookup_wraps_refuted. *)
+From RV Require Import Model.KeyCodec Proofs.C05_KeySpace.
 Open Scope N_scope.
 
-Theorem group_is_murmur_mod : forall count key, 0 < count -> key_group count key = murmur_hash key 0 mod count /\ key_group count key < count.
-Proof. intros count key H. split; [reflexivity|]. unfold key_group. apply N.mod_lt. lia. Qed.
+(* ranges are contiguous from 0 to count: first starts at 0, each starts where the previous ends, last ends at count *)
+Theorem ranges_contiguous_cover : forall count n, 0 < n ->
+  let rs := kg_ranges count n in
+  length rs = N.to_nat n /\
+  fst (nth 0 rs (0,0)) = 0 /\
+  (forall i, (S i < N.to_nat n)%nat -> snd (nth i rs (0,0)) = fst (nth (S i) rs (0,0))) /\
+  snd (nth (N.to_nat n - 1) rs (0,0)) = count /\
+  (forall i, (i < N.to_nat n)%nat -> fst (nth i rs (0,0)) <= snd (nth i rs (0,0))).
+Proof. exact c05_ranges_contiguous_cover. Qed.
+Print Assumptions ranges_contiguous_cover.
+
+(* non-overlapping and covering: every key group lies in exactly one range *)
+Theorem ranges_partition : forall count n kg, 0 < n -> kg < count ->
+  exists j, (j < N.to_nat n)%nat /\ includes_kg (nth j (kg_ranges count n) (0,0)) kg = true /\
+    forall j', (j' < N.to_nat n)%nat -> includes_kg (nth j' (kg_ranges count n) (0,0)) kg = true -> j' = j.
+Proof. exact c05_ranges_partition. Qed.
+Print Assumptions ranges_partition.
+
+(* sizes differ by at most one: the first (count mod n) ranges have one group more *)
+Theorem ranges_balanced : forall count n i, 0 < n -> (i < N.to_nat n)%nat ->
+  let r := nth i (kg_ranges count n) (0,0) in
+  snd r - fst r = count / n + (if N.of_nat i <? count mod n then 1 else 0).
+Proof. exact c05_ranges_balanced. Qed.
+Print Assumptions ranges_balanced.
+
+(* the key -> group mapping is murmur3-32(seed 0) mod count and is below count *)
+Theorem group_is_murmur_mod : forall count key, 0 < count ->
+  key_group count key = murmur_hash key 0 mod count /\ key_group count key < count.
+Proof. intros count key H. split; [reflexivity | apply key_group_lt; exact H]. Qed.
 Print Assumptions group_is_murmur_mod.
+
+(* the router's table lookup sends a key to the operator whose range contains the key's group *)
+Theorem lookup_sound : forall count n key, 0 < count -> count <= 65535 -> 0 < n -> n <= 65536 ->
+  let i := range_index count n key in
+  i < n /\ includes_kg (nth (N.to_nat i) (kg_ranges count n) (0,0)) (key_group count key) = true.
+Proof. exact c05_lookup_sound. Qed.
+Print Assumptions lookup_sound.
+
+(* everything persisted for a key (state entries, the scan prefix, timers) is stored under the key's group *)
+Theorem stored_under_group : forall count subject ns data t,
+  firstn 2 (encode_db_key count subject ns data) = be16 (key_group count subject) /\
+  firstn 2 (encode_subject_key count subject) = be16 (key_group count subject) /\
+  firstn 2 (encode_timer_key count subject t) = be16 (key_group count subject).
+Proof. exact c05_stored_under_group. Qed.
+Print Assumptions stored_under_group.
+
+(* an operator owns a stored key exactly when the router sends that key to it *)
+Theorem ownership_iff_routed : forall count n own subject ns data t,
+  0 < count -> count <= 65535 -> 0 < n -> n <= 65536 -> own < n ->
+  let r := nth (N.to_nat own) (kg_ranges count n) (0,0) in
+  owns_key r (encode_db_key count subject ns data) = Some (range_index count n subject =? own) /\
+  owns_key r (encode_timer_key count subject t) = Some (range_index count n subject =? own).
+Proof. exact c05_ownership_iff_routed. Qed.
+Print Assumptions ownership_iff_routed.
+
+(* the table lookup equals a search of the ranges (what Corr/Check_c05.v evaluates) *)
+Theorem range_index_is_find : forall count n key, 0 < count -> count <= 65535 -> 0 < n -> n <= 65536 ->
+  range_index count n key = find_range (kg_ranges count n) (key_group count key) 0.
+Proof. exact c05_range_index_is_find. Qed.
+Print Assumptions range_index_is_find.
+
+(* outside the guard: with more than 65536 operators the uint16 table entry wraps *)
+Theorem lookup_wraps_refuted : exists count n kg : N, count <= 65535 /\ kg < count /\
+  includes_kg (nth (N.to_nat (u16 65536)) (kg_ranges count n) (0,0)) kg = true /\ u16 65536 <> 65536.
+Proof. exists 3, 65540, 0. vm_compute. repeat split; discriminate. Qed.
+Print Assumptions lookup_wraps_refuted.
+
+(* pinning the hash: published MurmurHash3_x86_32 vectors (SMHasher) evaluate to the published values *)
+Example murmur_vectors :
+  murmur_hash [] 0 = 0 /\ murmur_hash [] 1 = 0x514E28B7 /\ murmur_hash [] 0xffffffff = 0x81F16F39 /\
+  murmur_hash [0xff;0xff;0xff;0xff] 0 = 0x76293B50 /\ murmur_hash [0x21;0x43;0x65;0x87] 0 = 0xF55B516B /\
+  murmur_hash [0x21;0x43;0x65;0x87] 0x5082EDEE = 0x2362F9DE /\ murmur_hash [0x21;0x43;0x65] 0 = 0x7E4A8634 /\
+  murmur_hash [0x21;0x43] 0 = 0xA0F7B07A /\ murmur_hash [0x21] 0 = 0x72661CF4 /\
+  murmur_hash [0;0;0;0] 0 = 0x2362F9DE /\ murmur_hash [0;0;0] 0 = 0x85F0B427 /\
+  murmur_hash [0;0] 0 = 0x30F4C306 /\ murmur_hash [0] 0 = 0x514E28B7.
+Proof. vm_compute. repeat split. Qed.
+
+(* non-vacuity: the guards are satisfiable and the statements say something on a concrete configuration *)
+Example c05_nonvacuous :
+  kg_ranges 10 3 = [(0,4);(4,7);(7,10)] /\ range_index 10 3 [107] = 1 /\ key_group 10 [107] = 5 /\
+  owns_key (4,7) (encode_db_key 10 [107] [110] [1]) = Some true /\ owns_key (0,4) (encode_db_key 10 [107] [110] [1]) = Some false.
+Proof. vm_compute. repeat split. Qed.
